@@ -4,7 +4,7 @@ import json, os
 V = os.path.dirname(os.path.dirname(os.path.abspath(__file__)))
 TB = "Trusted: TLC/SANY, CommunityModules Json/Bitwise/IOUtils overrides, the Python recorder in harness/, and the TLA+ transcription of the standards (validated by `make setup` against hashlib/zlib/OpenSSL-frozen/official known answers; DESIGN.md section 5)."
 CLAIMED = {
- 'C09': dict(tech="TLC: exhaustive bit-level model of the padding machine (all bit strings <= 12 bits, all call sequences) + every call history from a TLC scenario model replayed on the real padding objects, each step trace-validated by TLC against the byte-level spec",
+ 'C09': dict(tech="TLC: exhaustive bit-level model of the padding machine (all bit strings <= 12 bits, all call sequences) + every call history from a TLC scenario model replayed on the real padding objects, each step trace-validated by TLC against the byte-level spec; messages of 64 KiB..1.5 MiB (K copies of one block + a tail) recorded and judged in compressed form by PadBytes!IterLong, which MC_PadLong proves equal to the plain evaluation on every small case",
              text="Specification model-checked exhaustively within small bounds (all 8 schemes; invariants FullBlocks, FinalIsMsgThenPad, Minimal, UnpadInverts, CounterIdle, AfterFinalRefuses; byte-level spec proved equal to the bit-level one on 71k cases); implementation bound by trace validation of every TLC-generated call history (depth 3/4) and a complete length grid (scheme x block size x 0..3 blocks x every residue (<=16-byte blocks) / boundary residues x L mod 8), every yielded block, per-block bit counter, pad counter, flag and remove() result judged by TLC.  Structure is exhaustive, message content is sampled.",
              ref="DESIGN.md section 7 C09"),
 
@@ -19,7 +19,7 @@ CLAIMED = {
              text="All vector pairs of dims 0..4 (k=1), 0..3/4 (k=2), 0..2 (k=3) under + - ^ & | in both orders, neg, a+(-a), shifts, concat; every int/slice/list index read and written on dims <= 4/5; split for k in {8,16,32,64} and every divisor, both endiannesses; pack; rings Z, 2^8, 2^32, 2^64 with dims to 20 sampled.  Each recorded event is judged by TLC against base/PolyVec, whose laws (commutativity, a+(-a)=0, agreement with integer arithmetic, frame condition) are model-checked exhaustively on small instances.",
              ref="DESIGN.md section 7 C16"),
 
- 'C20': dict(tech="TLC: spec theorems (algorithmic successor = least greater arrangement; combination order; minimal subset) + TLC trace validation of every call on every list of length 0..5 over {1,2,3}, distinct lists to 6/7, every multiset of <= 4/5 weights and every target, each call repeated and interleaved",
+ 'C20': dict(tech="TLC: spec theorems (algorithmic successor = least greater arrangement; combination order; minimal subset) + TLC trace validation of every call on every list of length 0..5 over {1,2,3}, distinct lists to 6/7, every multiset of <= 4/5 weights and every target, each call repeated and interleaved, the same weights again on differently labelled items",
              text="Finite space enumerated completely within the bounds; TLC judges each recorded call against base/Combinat: multiset of arrangements (count, validity, multiplicity), list restored, lexicographic successor with wrap-around, combinations in index order, subset-sum answers (sub-collection, exact sum, failure iff unsolvable, minimal size for dynprog), at every position of a call history.",
              ref="DESIGN.md section 7 C20"),
 
